@@ -84,6 +84,11 @@ func (c *unlambdaChecker) VisitExpr(x ast.Expr) {
 			if result.Ellipsis == token.NoPos {
 				return
 			}
+			// It must be the variadic parameter that is forwarded
+			// (and not some other slice: `return sum(defaults...)`).
+			if len(params.Names) != 1 || n >= len(result.Args) || !c.mentions(result.Args[n], params.Names[0]) {
+				return
+			}
 			n++
 			continue
 		}
@@ -99,6 +104,14 @@ func (c *unlambdaChecker) VisitExpr(x ast.Expr) {
 	if c.lenArgs(result.Args) == n {
 		c.warn(fn, callable)
 	}
+}
+
+// mentions reports whether id occurs in x.
+func (c *unlambdaChecker) mentions(x ast.Expr, id *ast.Ident) bool {
+	return lintutil.ContainsNode(x, func(n ast.Node) bool {
+		other, ok := n.(*ast.Ident)
+		return ok && other.Name == id.Name
+	})
 }
 
 func (c *unlambdaChecker) isGenericFunc(fn ast.Expr) bool {
